@@ -551,6 +551,14 @@ func genCommentCase(r *RNG) ([]string, Meta) {
 	if len(wantPkg) > 0 {
 		ls = append(ls, Line("cm", "wantpkg"))
 	}
+	if g.n%40 == 7 && r.Chance(1, 5) {
+		// once in a while: a standard-library package first met as a dependency, then requested
+		ls = append(ls, Line("cm", "importer", "std"))
+		g.feats["standard-library-dependency-requested-later"] = true
+		feats := SortedKeys(g.feats)
+		feats = append(feats, fmt.Sprintf("files:%d", len(order)), fmt.Sprintf("decls:%d", len(g.intents)/4*4))
+		return ls, Meta{Nontrivial: len(g.intents) > 0, Features: feats}
+	}
 	switch r.Intn(3) {
 	case 0:
 		// the package is first loaded as a dependency of another one and requested later
@@ -599,13 +607,15 @@ func CommentsProperty(impl CmImpl) Property {
 			pk.Extra[n] = files[n]
 		}
 		prog := &Program{Module: "example.com/m", V2: impl.V2, Pkgs: []*ProgPkg{pk}}
-		later, user := false, false
+		later, user, std := false, false, false
 		var typeNames []string
 		for _, l := range lines {
 			f := Fields(l)
 			if f[1] == "importer" {
 				if len(f) > 2 && f[2] == "user" {
 					user = true
+				} else if len(f) > 2 && f[2] == "std" {
+					std = true
 				} else {
 					later = true
 				}
@@ -647,6 +657,48 @@ func CommentsProperty(impl CmImpl) Property {
 				}
 			}
 			return outs, []Failure{{"load-fails", fmt.Sprintf("loading the package failed: %v", err)}}
+		}
+		if std && impl.LoadLater != nil {
+			// a package of the standard library (no module of its own), first loaded as a dependency and requested later, is
+			// delivered the same comments as when it is requested straight away
+			const lib = "sort"
+			q := &ProgPkg{Path: "example.com/m/q", Name: "q", File: "q.go", Source: "package q\n\nimport _ \"" + lib + "\"\n\n// Q is here.\ntype Q int\n"}
+			sp := &Program{Module: "example.com/m", V2: impl.V2, Pkgs: []*ProgPkg{q}}
+			got, err1 := impl.LoadLater(sp, q.Path, lib)
+			ref, err2 := impl.LoadLater(sp, lib, lib)
+			if err1 != nil || err2 != nil || got.Pkgs[lib] == nil || ref.Pkgs[lib] == nil {
+				fails = append(fails, Failure{"load-fails", fmt.Sprintf("loading %s after / before its importer failed: %v / %v", lib, err1, err2)})
+			} else {
+				g, r := got.Pkgs[lib], ref.Pkgs[lib]
+				for _, n := range SortedKeys(r.Types) {
+					rt, gt := r.Types[n], g.Types[n]
+					if gt == nil {
+						fails = append(fails, Failure{"declaration-missing", lib + "." + n + " is missing when the package is requested after its importer"})
+						break
+					}
+					bad := !cmEq(rt.CommentLines, gt.CommentLines)
+					for i, m := range rt.Members {
+						if i >= len(gt.Members) || !cmEq(m.CommentLines, gt.Members[i].CommentLines) {
+							bad = true
+						}
+					}
+					for mn, m := range rt.Methods {
+						if gt.Methods[mn] == nil || !cmEq(m.CommentLines, gt.Methods[mn].CommentLines) {
+							bad = true
+						}
+					}
+					if bad {
+						fails = append(fails, Failure{"doc-lost", fmt.Sprintf("%s.%s (standard library, requested after its importer): delivered %s, requested straight away it is delivered %s", lib, n, cmShow(gt.CommentLines), cmShow(rt.CommentLines))})
+						break
+					}
+				}
+				for _, n := range SortedKeys(r.Funcs) {
+					if gf := g.Funcs[n]; gf == nil || !cmEq(r.Funcs[n].CommentLines, gf.CommentLines) {
+						fails = append(fails, Failure{"doc-lost", fmt.Sprintf("func %s.%s (standard library, requested after its importer) lost its doc comment", lib, n)})
+						break
+					}
+				}
+			}
 		}
 		upk := snap.Pkgs[cmPkgPath]
 		// positions (file, line) of blocks, to classify failures
@@ -737,7 +789,11 @@ func CommentsProperty(impl CmImpl) Property {
 	return Property{
 		Exec: exec,
 		Gen: func(c *Ctx) {
-			for _, ls := range cmCorpus() {
+			for i, ls := range cmCorpus() {
+				if i == 0 {
+					// … and once per run for sure: the standard-library package requested after its importer
+					c.Case(append(append([]string(nil), ls...), Line("cm", "importer", "std")), Meta{Nontrivial: true, Features: []string{"corpus", "standard-library-dependency-requested-later"}})
+				}
 				c.Case(ls, Meta{Nontrivial: true, Features: []string{"corpus"}})
 			}
 			r := c.RNG("layouts")
